@@ -199,7 +199,59 @@ func H_C20_gcs_pairs() {
 	vReach("c20-gcs-pairs")
 }
 
+// H_C20_batch: a batch request of 1..2 parts, each with an arbitrary part content type and an
+// embedded request whose declared Content-Length is ANY int64 and whose body has 0..2 bytes: the
+// handler never panics, always answers, and a 200 carries exactly one sub-response per part.
+func H_C20_batch() {
+	g := vNewEmu()
+	vPut(g, "b", "keep", []byte("kept"))
+	n := vChoice("parts", 1, 2)
+	var parts []vPartData
+	for i := 0; i < n; i++ {
+		ct := []string{"application/http", "text/plain", ""}[vChoice("part.content-type", 0, 2)]
+		e := &vEmbedded{contentLength: vNondetInt64("embedded.content-length")}
+		switch vChoice("embedded", 0, 4) {
+		case 0:
+			e.method, e.path = "GET", "/storage/v1/b/b/o/keep"
+		case 1:
+			e.method, e.path, e.query = "GET", "/storage/v1/b/b/o/keep", "alt=media"
+		case 2:
+			e.method, e.path = "DELETE", "/storage/v1/b/b/o/nosuch"
+		case 3:
+			e.method, e.path, e.query = "POST", "/upload/storage/v1/b/b/o", "uploadType=media&name=up"
+		case 4:
+			e.malformed = true
+		}
+		body := vNondetBytes("embedded.body", vChoice("embedded.body.len", 0, 2))
+		hdr := map[string]string{"Content-ID": "<id+1>"}
+		if ct != "" {
+			hdr["Content-Type"] = ct
+		}
+		parts = append(parts, vPartData{hdr: hdr, raw: vEmbedBytes(e, body)})
+	}
+	w := vNewRecorder()
+	vLastBatchOut = nil
+	req := &http.Request{Method: "POST", URL: &url.URL{Path: "/batch/storage/v1"}, Host: "h",
+		Header: http.Header{"Content-Type": []string{"multipart/mixed; boundary=" + vBoundary}}, Body: &vBody{parts: parts}}
+	panicked := c15Call(func() { g.BatchHandler(w, req) })
+	vAssert(!panicked, "batch:handler-does-not-panic")
+	if panicked {
+		return
+	}
+	vAssert(w.code != 0, "batch:a-status-is-written")
+	if w.code == http.StatusOK {
+		vAssert(vLastBatchOut != nil && vLastBatchOut.parts == n && vLastBatchOut.closed, "batch:one-sub-response-per-part")
+		vReach("c20-batch-ok")
+	} else {
+		vAssert(w.code >= 400 && (w.errorBody() || w.writes > 0), "batch:error-has-a-body")
+		vReach("c20-batch-rejected")
+	}
+	st := vSnap(g, "b", "keep")
+	vAssert(st.exists && string(st.content) == "kept", "batch:stored-data-still-served")
+}
+
 func init() {
+	vHarnesses["H_C20_batch"] = H_C20_batch
 	vHarnesses["H_C20_gcs_inputs"] = H_C20_gcs_inputs
 	vHarnesses["H_C20_gcs_pairs"] = H_C20_gcs_pairs
 }
